@@ -7,6 +7,7 @@ package tree
 import (
 	"slices"
 	"strings"
+	"sync/atomic"
 
 	"github.com/issue9/mux/v9/internal/syntax"
 	"github.com/issue9/mux/v9/types"
@@ -25,6 +26,12 @@ type node[T any] struct {
 
 	methodIndex int // 在 methodIndexes 中的索引值
 	handlers    map[string]T
+
+	// methodIndex 的副本
+	//
+	// AllowHeader 和 Methods 由用户的处理函数在锁的范围之外调用，
+	// 不能直接读取可能正在被 buildMethods 修改的 methodIndex。
+	allowIndex atomic.Int64
 
 	// 保存着 node 实例在 children 中的下标。
 	//
